@@ -346,7 +346,7 @@ REGISTRY.append(Chi2Lemma())
 
 # ---- C15 share of sum -----------------------------------------------------------------
 class _ShareSum(Contract):
-    props = ("C15", "C04")
+    props = ("C15", "C04", "C10")
     cls = None
     direction = None
 
